@@ -524,13 +524,15 @@ def select (opts : List ResOpt) (nearGiven : Bool) : Option Selection :=
               near := opts.contains .nearField || (opts.isEmpty && nearGiven) }
 
 inductive Stage where
-  | always | far | farAbs | near
+  | always | far | farRows | farAbs | near
 deriving Repr, DecidableEq, Inhabited
 
-/-- where the diagnostic of a malformed input comes from -/
+/-- where the diagnostic of a malformed input comes from (`farRows`: in the values computed for each direction of the far
+field — with an empty list of directions, a count of zero or less, there is nothing that could fail to be finite) -/
 def stage : Field → NumClass → Stage
-  | .radialCount, .neg => .far
-  | .ffPower, .neg | .ffPower, .inf | .ffPower, .nan => .far
+  | .radialCount, .neg => .farRows
+  | .ffPower, .neg => .farRows
+  | .ffPower, .inf | .ffPower, .nan => .far
   | .ffDistance, .nan => .far
   | .ffDistance, .inf => .farAbs
   | .thetaStart, .inf | .thetaStart, .nan => .far
@@ -538,22 +540,27 @@ def stage : Field → NumClass → Stage
   | .nfPower, .neg | .nfPower, .inf | .nfPower, .nan => .near
   | _, _ => .always
 
-def Selection.runs (s : Selection) : Stage → Bool
+def Selection.runs (s : Selection) (rows : Bool) : Stage → Bool
   | .always => true
   | .far => s.far
+  | .farRows => s.far && rows
   | .farAbs => s.farAbs
   | .near => s.near
 
+/-- the far-field table has no rows when the number of zenith angles is zero or negative -/
+def farHasRows (inputs : List (Field × NumClass)) : Bool :=
+  !inputs.any fun fc => fc.1 == .thetaCount && (fc.2 == .neg || fc.2 == .zero)
+
 /-- the outcome of one input when the results `s` are computed: a diagnostic of a stage that does not run cannot occur -/
-def expectedSel (s : Selection) (f : Field) (c : NumClass) : Outcome :=
+def expectedSel (s : Selection) (rows : Bool) (f : Field) (c : NumClass) : Outcome :=
   match expected f c with
-  | .diag => if s.runs (stage f c) then .diag else .report
+  | .diag => if s.runs rows (stage f c) then .diag else .report
   | o => o
 
 /-- validation of a whole command line: the inputs, the result options, whether `--near-field` parameters are present -/
 def composeSel (opts : List ResOpt) (nearGiven : Bool) (inputs : List (Field × NumClass)) : Outcome :=
   match select opts nearGiven with
   | none => composeOutcome (inputs.map (fun fc => expected fc.1 fc.2) ++ [.diag])
-  | some s => composeOutcome (inputs.map fun fc => expectedSel s fc.1 fc.2)
+  | some s => composeOutcome (inputs.map fun fc => expectedSel s (farHasRows inputs) fc.1 fc.2)
 
 end Pmn.Guard
